@@ -302,12 +302,12 @@ class Gen:
                     return "intoInner %d" % s
                 continue
             if fam == "tryUnique":
-                s = pick(lambda k, t: k == "arc" and t in ("sized", "slice", "hs", "mu", "muSlice"))
+                s = pick(lambda k, t: k == "arc" and t in ("sized", "slice", "hs", "hwl", "mu", "muSlice"))
                 if s is not None:
                     return "tryUnique %d" % s
                 continue
             if fam == "uniqWrite":
-                s = pick(lambda k, t: k == "uniq" and t in ("sized", "slice", "hs"))
+                s = pick(lambda k, t: k == "uniq" and t in ("sized", "slice", "hs", "hwl", "dyn"))
                 if s is not None:
                     return "uniqWrite %d %d" % (s, r.randrange(10, 99))
                 continue
@@ -390,6 +390,7 @@ MAKERS = {
     "uniq.sized": ["create 0 uniqueNew 1:1"],
     "uniq.slice": ["iter 0 uniqueFromIter - lens=- hints=- items=1:1,2:2 panic=-"],
     "uniq.dyn": ["create 0 uniqueNew 1:1", "conv 0 toDyn"],
+    "uniq.hwl": ["create 0 hwlFromVec 9:9 2 2 1:1,2:2", "tryUnique 0"],
     "uniq.hs": ["create 0 hsUninit 9:9 2", "writeSlot 0 0 1:1", "writeSlot 0 1 2:2", "conv 0 assumeInit"],
     "arc.mu": ["create 0 newUninit"],
     "arc.mu.w": ["create 0 newUninit", "writeSlot 0 0 1:1"],
@@ -519,6 +520,10 @@ def tour():
                 if which in ("fromIter", "uniqueFromIter"):
                     hs.append(["reset", "iter 0 %s %s lens=- hints=0:* items=%s panic=%d" % (which, h, its, k), "dropAll"])
             if which in ("fromIter", "uniqueFromIter"):
+                for lo in sorted({0, 1, max(0, actual - 1), actual}):
+                    if lo <= actual and lo > 0:
+                        # a true lower bound with NO upper bound (iter::from_fn, successors, chain of an unbounded one)
+                        hs.append(["reset", "iter 0 %s %s lens=- hints=%d:* items=%s panic=-" % (which, h, lo, its), "dropAll"])
                 hs.append(["reset", "iter 0 %s %s lens=- hints=0:* items=%s panic=-" % (which, h, its), "conv 0 shareable", "clone 1 0", "dropAll"])
                 hs.append(["reset", "iter 0 %s %s lens=- hints=%d:%d items=%s panic=-" % (which, h, actual, actual + 3, its), "dropAll"])
     # constructors: lengths across internal boundaries, capacities >= length
@@ -740,6 +745,24 @@ def monitor_history(ops, obs):
                     if (tk == "mut=some") != (own == 1):
                         fails.append((i, ["C03"], "get_mut inside the with_arc_mut callback answered %s while %d owning handle(s) refer to b%d" % (tk[4:], own, cur)))
                         break
+        if f[0] == "iter" and st.startswith("panic") and len(f) == 8:
+            # C06: an HONEST iterator (every reported length / size_hint it ever gives is true, next() never panics) must be accepted
+            try:
+                n_items = 0 if f[6][len("items="):] == "-" else len(f[6][len("items="):].split(","))
+                lens = f[4][len("lens="):]
+                hints = f[5][len("hints="):]
+                honest = f[7] == "panic=-"
+                if lens != "-":
+                    honest = honest and all(int(x) == n_items for x in lens.split(","))
+                if hints != "-":
+                    honest = honest and len(set(hints.split(","))) == 1        # an answer that changes between calls is C07's "lying" class
+                    for hh in hints.split(","):
+                        lo, up = hh.split(":")
+                        honest = honest and int(lo) <= n_items and (up == "*" or int(up) >= n_items)
+                if honest:
+                    fails.append((i, ["C06"], "the constructor refused (%s) an honest iterator of %d items (lens=%s hints=%s)" % (st, n_items, lens, hints)))
+            except ValueError:
+                pass
         # C06: a constructor that succeeds delivers exactly the given header and elements, in order,
         # destroys none of them, and leaves no source storage behind
         if f[0] in ("create", "iter") and st == "ok" and len(f) > 2 and f[1].isdigit() and int(f[1]) in post and int(f[1]) not in pre:
@@ -1193,6 +1216,37 @@ def zst_eval(harness_exe_zst, model_exe, ops):
     mon = [(k, props, msg + " [zero-sized payload build]") for (k, props, msg) in monitor_history(ops, iobs) + extra
            if "visible" not in msg and "delivered" not in msg and "digest" not in msg]
     return dis, mon, irc, il, ml
+
+
+def run_zst_iter_pass(harness_exe_zst, histories):
+    """iterator-based constructors with a ZERO-SIZED element type: the crate refuses up front (`Need to think about ZST`);
+    the property allows a refusal by panic or a correct handle — never a handle whose elements were already destroyed,
+    nor more destructor runs than elements.  Monitor only (the model is not consulted)."""
+    hs = [h for h in histories if any(op.startswith("iter ") for op in h) and all(op.split()[0] in ("reset", "iter", "drop", "dropAll", "clone", "conv") for op in h)]
+    ih, crashes = run_impl_resilient(harness_exe_zst, hs)
+    fails = []
+    for hi, ops in enumerate(hs):
+        il = ih[hi]
+        made = dropped = 0
+        for k in range(1, len(ops)):
+            o = parse_obs(il[k]) if k < len(il) else None
+            if o is None:
+                fails.append((hi, k, ["C06", "C01"], "no observation (the harness process died) [zero-sized elements]"))
+                break
+            f = ops[k].split()
+            nd = sum(1 for e in o["ev"] if e.startswith("drop:"))
+            if f[0] == "iter" and len(f) == 8 and o["status"] != "bad-op":
+                its = f[6][len("items="):]
+                given = (0 if its == "-" else len(its.split(","))) + (0 if f[3] == "-" else 1)
+                made += given
+                if o["status"] == "ok" and nd:
+                    fails.append((hi, k, ["C06", "C01"], "the constructor returned a handle but destroyed %d of the zero-sized values it was given" % nd))
+            made += sum(1 for e in o["ev"] if e.startswith("clone:"))
+            dropped += nd
+            if dropped > made:
+                fails.append((hi, k, ["C06", "C01", "C07"], "%d destructor runs but only %d zero-sized values ever existed (destroyed twice)" % (dropped, made)))
+                break
+    return len(hs), fails, crashes, hs
 
 
 def run_zst_pass(ctx, histories, harness_exe_zst, model_exe):
